@@ -257,10 +257,8 @@ impl<'a, COLOR: ColorType + PixelColor> VarDisplay<'a, COLOR> {
     /// get the number of used bytes in the buffer
     fn buffer_size(&self) -> usize {
         self.height as usize
-            * line_bytes(
-                self.width,
-                COLOR::BITS_PER_PIXEL_PER_BUFFER * COLOR::BUFFER_COUNT,
-            )
+            * line_bytes(self.width, COLOR::BITS_PER_PIXEL_PER_BUFFER)
+            * COLOR::BUFFER_COUNT
     }
 
     /// get internal buffer to use it (to draw in epd)
